@@ -343,7 +343,7 @@ def units(tier):
                        bounds="catalogue tetrahedron with a symbolic centre-of-mass override and density x matrix family '%s'" % kd, max_paths=200, wall_s=300, ob_ms=60000, feas_ms=800, group=False))
     for kd in (["translate", "scale", "shear"] + (["sim1", "sim4"] if T else [])):
         us.append(Unit("mesh-inverse-%s" % kd, u_mesh_inverse, params={"kind": kd}, key="mesh-inverse", functions=FM, bounds="symbolic tetrahedron x matrix family '%s' then its exact inverse" % kd, max_paths=300, wall_s=300, ob_ms=60000, feas_ms=800, group=False))
-    for a, b in ([("scale", "translate"), ("shear", "scale"), ("translate", "shear")] + ([("translate", "sim4"), ("sim1", "shear"), ("sim1", "scale")] if T else [])):  # ("scale", "scale") ran into the 1500 s hard timeout in the first thorough run: dropped
+    for a, b in ([("scale", "translate"), ("shear", "scale"), ("translate", "shear")] + ([("translate", "sim4"), ("sim1", "shear")] if T else [])):  # ("sim1", "scale") and ("scale", "scale") ran into the 1500 s hard timeout in the first thorough run: dropped
         us.append(Unit("mesh-compose-%s-then-%s" % (a, b), u_mesh_compose, params={"a": a, "b": b}, key="mesh-compose", functions=FM, bounds="symbolic tetrahedron; A from '%s', B from '%s'" % (a, b), max_paths=400, wall_s=400, ob_ms=60000, feas_ms=800, group=False))
     # (the units 'flips_winding(M) = det<0 for EVERY draw' were measured and dropped: even with a single symbolic coordinate of one random
     #  vertex z3 answers unknown at 15 s on the normalised-cross-product condition; the draw-independence clause is therefore NOT claimed)
